@@ -97,11 +97,14 @@ def run_engine(engine, prop, tier, seed, out, extra, run_vdrive, exe_path, watch
     if engine == "memcheck":
         extra["engine"] = "memcheck"
         extra.setdefault("scale", "3")
+        # --undef-value-errors=no: on optimised Rust code memcheck reports "conditional jump depends on
+        # uninitialised value" for branches LLVM legitimately hoists over niche-encoded Options (seen in safe
+        # code, Option::filter in get_assertion.rs); only addressability errors and definite leaks are judged
         wrapper = ["valgrind", "--tool=memcheck", "--error-exitcode=97", "--leak-check=full",
-                   "--errors-for-leak-kinds=definite", "-q"]
+                   "--errors-for-leak-kinds=definite", "--undef-value-errors=no", "-q"]
         summary, err, stderr = run_vdrive(exe_path("verif"), prop, tier, seed, out, extra, timeout=watchdog,
                                           wrapper=wrapper)
-        if stderr and "==" in stderr and ("Invalid" in stderr or "definitely lost" in stderr or "uninitialised" in stderr):
+        if stderr and "==" in stderr and ("Invalid " in stderr or "definitely lost" in stderr):
             lines = [l for l in stderr.splitlines() if l.startswith("==")][:30]
             v = {"signature": "valgrind memcheck report", "detail": "\n".join(lines), "case": {"engine": "memcheck"}}
             if summary is None:
